@@ -55,10 +55,12 @@ namespace igris
             if (this == &other)
                 return *this;
             clear();
-            m_size = other.m_size;
-            for (std::size_t pos = 0; pos < m_size; ++pos)
+            // the size follows every constructed element: if a copy
+            // constructor throws, only what was built is owned
+            while (m_size < other.m_size)
             {
-                new (&_data[pos]) T(other[pos]);
+                new (&_data[m_size]) T(other[m_size]);
+                ++m_size;
             }
             return *this;
         }
@@ -68,10 +70,10 @@ namespace igris
             if (this == &other)
                 return *this;
             clear();
-            m_size = other.m_size;
-            for (std::size_t pos = 0; pos < m_size; ++pos)
+            while (m_size < other.m_size)
             {
-                new (&_data[pos]) T(std::move(other[pos]));
+                new (&_data[m_size]) T(std::move(other[m_size]));
+                ++m_size;
             }
             other.clear();
             return *this;
